@@ -135,6 +135,15 @@ def multi_file_cases(ctx):
     out.append(("same-base-name-two-depths-local-first", {"s.json": {"$id": "http://x/main", "type": "object", "properties": {"o": {"$ref": "./sub/order.json"}}, "required": ["o"]},
                                                           "sub/order.json": {"type": "object", "properties": {"number": {"$ref": "types.json#/$defs/Id"}, "customer": {"$ref": "../types.json#/$defs/Id"}}},
                                                           "types.json": t_top, "sub/types.json": t_sub}, "s.json", []))
+    # three referenced files with one base name: the first differs, the second and third are equal in content (a declaration may be shared only between equal schemas)
+    it1 = {"type": "object", "properties": {"n": {"type": "integer", "minimum": 1}}, "required": ["n"]}
+    it2 = {"type": "object", "properties": {"s": {"type": "string", "minLength": 2}}, "required": ["s"]}
+    out.append(("same-base-name-three-files", {"s.json": {"$id": "http://x/main", "type": "object", "properties": {"x": {"$ref": "x/item.json"}, "y": {"$ref": "y/item.json"}, "z": {"$ref": "z/item.json"}}},
+                                               "x/item.json": it1, "y/item.json": it2, "z/item.json": it2}, "s.json", []))
+    out.append(("same-definition-name-three-files", {"s.json": {"$id": "http://x/main", "type": "object", "properties": {"x": {"$ref": "x.json#/$defs/Item"}, "y": {"$ref": "y.json#/$defs/Item"},
+                                                                                                                   "z": {"$ref": "z.json#/$defs/Item"}}},
+                                                     "x.json": {"description": "x", "$defs": {"Item": it2}}, "y.json": {"description": "y", "$defs": {"Item": it1}},
+                                                     "z.json": {"description": "z", "$defs": {"Item": it1}}}, "s.json", []))
     out.append(("parent-dir", {"s.json": top, "sub/mid.json": mid, "leaf.json": leaf}, "s.json", []))
     return out
 
